@@ -322,22 +322,54 @@ def provision : Policy → Option Policy
   | .cookie c fb => (provision fb).map (.cookie c)
   | p => some p
 
-/-! ### the proxy loop around `Select` (reverseproxy.go, proxyLoopIteration / reverseProxy)
+/-! ### the proxy loop around `Select` (reverseproxy.go: ServeHTTP loop, proxyLoopIteration, tryAgain,
+reverseProxy, provisionUpstream; healthchecks.go: countFailure)
 
-One handler, one list of upstream addresses (static, or handed out afresh by a dynamic upstream
-source for every request: the upstream values are new each time, but `fillHost` ties them to the
-shared per-address `Host` in the global pool, which a request keeps referenced until its loop
-iteration ends). The only state besides the policy is the number of requests in flight per
-address: `countRequest(+1)` after a successful `Select`, `countRequest(-1)` when the round trip is
-over. Requests overlap only through requests that are *held* at the backend. No retries
-(`try_duration` = `retries` = 0): a nil selection is answered with 503. -/
+One handler, one list of upstream addresses — static, or handed out afresh by a dynamic upstream
+source for every iteration of the loop (the upstream values are new each time, but `fillHost` ties
+them to the shared per-address `Host` in the global pool; an iteration keeps every address
+referenced until it ends, and an entry nobody references any more is dropped together with its
+counters). State besides the policy: requests in flight and recent failures per address.
+An iteration: `Select`; nil → the error carried over from the previous iteration, or 503;
+otherwise `countRequest(+1)`, round trip, `countRequest(-1)`; a failed round trip is remembered by
+`countFailure` (passive health checks with a `fail_duration`) and `tryAgain` decides whether the
+loop goes on: `lb_retries` not used up, and — unless the error is a dial error or "no upstreams" —
+the request is a GET (no `retry_match`). `try_duration` = 0, so `try_interval` stays 0.
+Requests overlap only through requests that are *held* at the backend. -/
 
-/-- the pool `Select` sees: address `ids[i]` with `loads[i]` requests in flight and the limit `m`
-    (`unhealthy_request_count`, copied to `MaxRequests` by `provisionUpstream`; with it comes the
-    passive policy, `MaxFails` defaulted to 1, no failures recorded) -/
-def mkPool (m : Nat) : List Nat → List Nat → Pool
-  | id :: ids, l :: ls => ⟨id, true, 0, if m = 0 then none else some 1, none, l, m, 0⟩ :: mkPool m ids ls
-  | _, _ => []
+/-- one upstream of the handler: dial identity, its own `max_requests` (0 = none), and what
+    the backend does with a round trip: 0 = answers, 1 = the dial fails, 2 = another error -/
+structure PUp where
+  id : Nat
+  max : Nat
+  bad : Nat
+deriving DecidableEq, Repr
+
+/-- the handler configuration: dynamic upstream source?, `unhealthy_request_count` (0 = none),
+    `fail_duration` set?, `max_fails` (0 = default), `lb_retries`, the upstreams -/
+structure PCfg where
+  dyn : Bool
+  m : Nat
+  fd : Bool
+  mf : Nat
+  retries : Nat
+  ups : List PUp
+deriving DecidableEq, Repr
+
+/-- are passive health checks configured at all (then every upstream gets the policy)? -/
+def PCfg.passive (c : PCfg) : Bool := decide (0 < c.m) || c.fd || decide (0 < c.mf)
+
+/-- `Provision`: `MaxFails` defaults to 1 -/
+def PCfg.maxFails (c : PCfg) : Option Nat := if c.passive then some (if c.mf = 0 then 1 else c.mf) else none
+
+/-- `provisionUpstream`: `unhealthy_request_count` is the default for upstreams without a
+    `max_requests` of their own -/
+def effLimit (m : Nat) (u : PUp) : Nat := if u.max = 0 then m else u.max
+
+/-- the pool `Select` sees -/
+def mkPool (c : PCfg) : List PUp → List Nat → List Nat → Pool
+  | u :: us, l :: ls, f :: fs => ⟨u.id, true, f, c.maxFails, none, l, effLimit c.m u, 0⟩ :: mkPool c us ls fs
+  | _, _, _ => []
 
 def incAt : List Nat → Nat → List Nat
   | [], _ => []
@@ -351,17 +383,27 @@ def decAt : List Nat → Nat → List Nat
 
 /-- a client-side event -/
 inductive Ev where
-  | hold            -- a request arrives and stays in flight at the backend
-  | quick           -- a request arrives and completes
-  | fin (k : Nat)   -- the backend answers the k-th held request
+  | arrive (hold get : Bool)  -- a request arrives; held at the backend if it gets there?; GET (else POST)
+  | fin (k : Nat)             -- the backend answers the k-th held request
 deriving DecidableEq, Repr
 
-/-- what the client of an event sees -/
-inductive EvOut where
-  | sent (i : Nat)  -- proxied to address number i
-  | refused         -- 503, no upstreams available
-  | crashed         -- Select panicked
+/-- the error the loop carries from one iteration to the next -/
+inductive PErr where
+  | none | noUpstream | dial | other
+deriving DecidableEq, Repr
+
+/-- how a request ends -/
+inductive Final where
+  | sent (i : Nat)   -- proxied to address number i
+  | status (code : Nat)  -- 503 no upstreams available / 502 the last error
+  | crashed          -- Select panicked
   | starved
+deriving DecidableEq, Repr
+
+/-- what the client of an event sees; `tried` = the addresses whose round trip failed, `none`
+    for an iteration in which `Select` returned nil -/
+inductive EvOut where
+  | req (tried : List (Option Nat)) (fin : Final)
   | done            -- a held request completed
   | idle            -- that request was not in flight (it had been refused, or completed before)
 deriving DecidableEq, Repr
@@ -369,48 +411,111 @@ deriving DecidableEq, Repr
 structure PState where
   pol : Policy
   loads : List Nat            -- requests in flight per address
-  held : List (Option Nat)    -- per `hold` event so far: the address it is in flight on
+  fails : List Nat            -- recent failures per address
+  held : List (Option Nat)    -- per held-request so far: the address it is in flight on
   draws : List Nat
 deriving DecidableEq, Repr
-
-def outOf : Res → EvOut
-  | .sel i => .sent i
-  | .none => .refused
-  | .starved => .starved
-  | _ => .crashed
-
-def selIdx : Res → Option Nat
-  | .sel i => some i
-  | _ => none
 
 def setNone : List (Option Nat) → Nat → List (Option Nat)
   | [], _ => []
   | _ :: hs, 0 => none :: hs
   | h :: hs, k + 1 => h :: setNone hs k
 
-/-- one event on a handler with limit `m` and addresses `ids` -/
-def pstep (m : Nat) (ids : List Nat) (s : PState) : Ev → EvOut × PState
-  | .quick =>
-    (outOf (select true s.pol (mkPool m ids s.loads) s.draws).res,
-      { s with pol := (select true s.pol (mkPool m ids s.loads) s.draws).pol,
-               draws := (select true s.pol (mkPool m ids s.loads) s.draws).draws })
-  | .hold =>
-    (outOf (select true s.pol (mkPool m ids s.loads) s.draws).res,
-      { pol := (select true s.pol (mkPool m ids s.loads) s.draws).pol,
-        draws := (select true s.pol (mkPool m ids s.loads) s.draws).draws,
-        loads := match selIdx (select true s.pol (mkPool m ids s.loads) s.draws).res with
-          | some i => incAt s.loads i
-          | none => s.loads,
-        held := s.held ++ [selIdx (select true s.pol (mkPool m ids s.loads) s.draws).res] })
+def badAt (ups : List PUp) (i : Nat) : Nat :=
+  match ups[i]? with
+  | some u => u.bad
+  | none => 0
+
+/-- is any held request in flight (keeping the dynamic upstreams' hosts referenced)? -/
+def anyHeld (held : List (Option Nat)) : Bool := held.any Option.isSome
+
+/-- the end of an iteration with dynamic upstreams: nobody else holds the hosts → they are gone -/
+def dropFails (c : PCfg) (held : List (Option Nat)) (fails : List Nat) : List Nat :=
+  if c.dyn && !anyHeld held then fails.map (fun _ => 0) else fails
+
+/-- `tryAgain` with `left` retries still allowed -/
+def tryAgain (left : Nat) (e : PErr) (get : Bool) : Bool :=
+  decide (0 < left) && (match e with
+    | .other => get
+    | _ => true)
+
+def statusOf : PErr → Nat
+  | .noUpstream => 503
+  | _ => 502
+
+/-- what `Select` returns in state `s` -/
+def selRes (c : PCfg) (s : PState) : Res := (select true s.pol (mkPool c c.ups s.loads s.fails) s.draws).res
+
+/-- the state after that `Select`: policy counters and draws advanced -/
+def afterSel (c : PCfg) (s : PState) : PState :=
+  { s with pol := (select true s.pol (mkPool c c.ups s.loads s.fails) s.draws).pol,
+           draws := (select true s.pol (mkPool c c.ups s.loads s.fails) s.draws).draws }
+
+/-- no upstream: the error of the previous iteration is kept, or it is "no upstreams available" -/
+def carried (prev : PErr) : PErr := if prev = .none then .noUpstream else prev
+
+/-- the error of a failed round trip to address `i` -/
+def errAt (c : PCfg) (i : Nat) : PErr := if badAt c.ups i = 1 then .dial else .other
+
+/-- after a failed round trip to `i`: `countFailure`, end of the iteration -/
+def afterFail (c : PCfg) (s : PState) (i : Nat) : PState :=
+  { afterSel c s with fails := dropFails c s.held (if c.fd then incAt s.fails i else s.fails) }
+
+/-- after the round trip to `i` succeeded (and the request stays there if it is held) -/
+def afterSent (c : PCfg) (hold : Bool) (s : PState) (i : Nat) : PState :=
+  { afterSel c s with
+    loads := if hold then incAt s.loads i else s.loads,
+    fails := if hold then s.fails else dropFails c s.held s.fails,
+    held := if hold then s.held ++ [some i] else s.held }
+
+/-- the proxy loop for one request: first argument = retries still allowed (`lb_retries` minus the
+    retries made), `prev` = the error carried over from the previous iteration -/
+def attempt (c : PCfg) (hold get : Bool) : Nat → PErr → PState → List (Option Nat) × Final × PState
+  | 0, prev, s =>
+    match selRes c s with
+    | .none => ([none], .status (statusOf (carried prev)), afterSel c s)
+    | .sel i =>
+      if badAt c.ups i = 0 then ([], .sent i, afterSent c hold s i)
+      else ([some i], .status 502, afterFail c s i)
+    | .starved => ([], .starved, s)
+    | _ => ([], .crashed, s)
+  | left + 1, prev, s =>
+    match selRes c s with
+    | .none =>
+      if tryAgain (left + 1) (carried prev) get then
+        (none :: (attempt c hold get left (carried prev) (afterSel c s)).1,
+          (attempt c hold get left (carried prev) (afterSel c s)).2)
+      else ([none], .status (statusOf (carried prev)), afterSel c s)
+    | .sel i =>
+      if badAt c.ups i = 0 then ([], .sent i, afterSent c hold s i)
+      else if tryAgain (left + 1) (errAt c i) get then
+        (some i :: (attempt c hold get left (errAt c i) (afterFail c s i)).1,
+          (attempt c hold get left (errAt c i) (afterFail c s i)).2)
+      else ([some i], .status 502, afterFail c s i)
+    | .starved => ([], .starved, s)
+    | _ => ([], .crashed, s)
+
+/-- one event -/
+def pstep (c : PCfg) (s : PState) : Ev → EvOut × PState
+  | .arrive hold get =>
+    (.req (attempt c hold get c.retries .none s).1 (attempt c hold get c.retries .none s).2.1,
+      match (attempt c hold get c.retries .none s).2.1 with
+      | .sent _ => (attempt c hold get c.retries .none s).2.2
+      | _ => if hold then { (attempt c hold get c.retries .none s).2.2 with
+                              held := (attempt c hold get c.retries .none s).2.2.held ++ [none] }
+             else (attempt c hold get c.retries .none s).2.2)
   | .fin k =>
     match s.held[k]? with
-    | some (some i) => (.done, { s with loads := decAt s.loads i, held := setNone s.held k })
+    | some (some i) =>
+      (.done, { s with loads := decAt s.loads i, held := setNone s.held k,
+                        fails := dropFails c (setNone s.held k) s.fails })
     | _ => (.idle, s)
 
-def prun (m : Nat) (ids : List Nat) : PState → List Ev → List EvOut × PState
+def prun (c : PCfg) : PState → List Ev → List EvOut × PState
   | s, [] => ([], s)
-  | s, e :: es => ((pstep m ids s e).1 :: (prun m ids (pstep m ids s e).2 es).1, (prun m ids (pstep m ids s e).2 es).2)
+  | s, e :: es => ((pstep c s e).1 :: (prun c (pstep c s e).2 es).1, (prun c (pstep c s e).2 es).2)
 
-def pinit (p : Policy) (ids : List Nat) (ds : List Nat) : PState := ⟨p, ids.map (fun _ => 0), [], ds⟩
+def pinit (p : Policy) (c : PCfg) (ds : List Nat) : PState :=
+  ⟨p, c.ups.map (fun _ => 0), c.ups.map (fun _ => 0), [], ds⟩
 
 end CaddyModel.C08
